@@ -340,3 +340,18 @@ ASSUMPTIONS = [
     "rely: the table of every ancestor consists of 5-tuples (guaranteed by this block for the table it stores: rely/guarantee over class creation)",
     "instance-time installation, dependency resolution, dispatch and the function form are covered by the bounded layer only",
 ]
+
+
+# C06 rests on the dispatcher: a dependent method runs exactly once per change only if the watcher
+# installed for it is queued once, flushed once and the dispatch state survives every exit.  The
+# dispatcher contracts (verified for C03/C04/C05) are therefore part of this check as well.
+_c06_base = contracts
+
+
+def contracts():
+    from contracts import c03 as _c03, c04 as _c04, c05 as _c05
+    extra = [_c03.call_watcher_contract(), _c04.flush_contract()] + \
+        [c for c in _c05.contracts() if c.name in ("batch_call_watchers", "_batch_call_watchers", "discard_events")]
+    for c in extra:
+        c.prop = PROP
+    return _c06_base() + extra
